@@ -155,6 +155,10 @@ def validate_sparse(seed=0, rounds=60):
         _same('vstack float32', sp.vstack([r, zr], format='csr', dtype=np.float32), M.vstack([m, zm], format='csr', dtype=np.float32))
         _same('astype float32', r.astype(np.float32), m.astype(np.float32))
         _same_dense('matmul', (r @ r.T).toarray(), (m @ m.T).toarray())
+        _same_dense('add', (r + r.tocsc().tocsr()).toarray(), (m + m.tocsc().tocsr()).toarray())
+        _same_dense('sub', (r - r.T.T * 2).toarray(), (m - m.T.T * 2).toarray())
+        if (r - r).nnz != (m - m).nnz or (r - r).format != (m - m).format:
+            raise ModelMismatch('x - x: stored entries / format')
         _same_dense('matmul csc', (r.tocsc() @ r.T.tocsr()).toarray(), (m.tocsc() @ m.T.tocsr()).toarray())
         zr, zm = sp.csr_matrix((nr, 2)), M.csr_matrix((nr, 2))
         _same('hstack zero', sp.hstack([r, zr]), M.hstack([m, zm]))
